@@ -15,7 +15,7 @@ RULE = ("translation validation: rank logic regenerated from entanglement.low_ra
         "built Schmidt truncation, fidelity vs sum of top squared coefficients, every bipartition and rank. "
         "distinct = distinct (singular values, rank) / (state, partition, rank); non-trivial = at least 2 singular values")
 ASSUMPTIONS = ["np.linalg.svd returns orthonormal factors and non-increasing singular values (contract, checked numerically in the direct evaluation)",
-               "optimality among all states of that Schmidt rank (Eckart-Young) is a property of the SVD and is not proved here; the direct evaluation checks the fidelity value"]
+               "optimality among all states of that Schmidt rank is proved given the SVD contract (C07_optimal_truncation: Cauchy-Schwarz, Bessel, top-k bound); that numpy's factors are a singular value decomposition is a numerical contract; the direct evaluation checks the fidelity value"]
 TRUSTED = ["harness/translate.py gen_rank(): shape-checked extraction"]
 HEADER = ("From Coq Require Import List Bool ZArith NArith QArith.\nFrom QV Require Import GenLib Gen_rank CaseLib.\nImport ListNotations.\n")
 
